@@ -232,6 +232,26 @@ mod c19 {
                 }
             }
         }
+        if !thorough {
+            // every single deviation once more on an unpublished endpoint (unpublished only hides the
+            // endpoint from the document; everything else about it still holds)
+            for dim in &dims {
+                for alt in dim {
+                    fresh(&mut out, &|d| {
+                        alt(d);
+                        d.unpublished = true;
+                    });
+                }
+            }
+            for bm in 1..BODY_MAX.len() {
+                fresh(&mut out, &move |d| {
+                    d.body_max = bm;
+                    d.extractors = 2;
+                    d.method = "PUT";
+                    d.unpublished = true;
+                });
+            }
+        }
         // the root path "/" (the router's root node), one declaration per method, each with a version range
         for (m, v) in [("GET", 4usize), ("PUT", 2), ("DELETE", 3), ("POST", 9)] {
             fresh(&mut out, &move |d| {
